@@ -18,6 +18,17 @@ def StackOK : List Frame → Prop
   | [] => True
   | f :: rest => (initPc f.pc = true → ∀ g ∈ rest, g.lib = f.lib → initPc g.pc = false ∧ gatePc g.pc = false) ∧ StackOK rest
 
+/-- some frame of the stack is inside `_cffi_initialize_python` of library `L` -/
+def hasInit (L : Lib) (st : List Frame) : Bool := st.any (fun f => f.lib == L && initPc f.pc)
+
+@[simp] theorem hasInit_nil (L : Lib) : hasInit L [] = false := rfl
+theorem hasInit_cons (L : Lib) (f : Frame) (r : List Frame) :
+    hasInit L (f :: r) = ((f.lib == L && initPc f.pc) || hasInit L r) := by
+  simp [hasInit]
+theorem hasInit_iff (L : Lib) (st : List Frame) :
+    hasInit L st = true ↔ ∃ f ∈ st, f.lib = L ∧ initPc f.pc = true := by
+  simp [hasInit]
+
 structure Inv (s : State) : Prop where
   g1 : s.pyInitCount = if s.pyInit then 1 else 0
   g2 : s.pyInit = false → s.gil = none
@@ -41,7 +52,8 @@ structure Inv (s : State) : Prop where
   l2 : ∀ L, (s.lib L).called = false ↔ (s.lib L).status = .notStarted
   l3 : ∀ L, (s.lib L).fast = true → (s.lib L).status = .ok
   l4 : ∀ L, (s.lib L).org = true → (s.lib L).status = .running ∨ (s.lib L).status = .ok
-  l5 : ∀ L, (s.lib L).status = .running → ∃ u, (s.lib L).initBy = some u ∧ ∃ f ∈ s.thr u, f.lib = L ∧ initPc f.pc = true
+  l5a : ∀ L, (s.lib L).status = .running → (s.lib L).initBy ≠ none
+  l5b : ∀ L u, (s.lib L).status = .running → (s.lib L).initBy = some u → hasInit L (s.thr u) = true
   l6 : ∀ L, (s.lib L).called = true → s.pyInit = true
 
 theorem Inv.wf2 {s : State} (hI : Inv s) : ∀ t f g r, s.thr t = f :: g :: r → ∃ k, g.pc = .pyOut k :=
